@@ -1,6 +1,7 @@
 package main
 
 import (
+	"go/parser"
 	"fmt"
 	"go/ast"
 	"go/token"
@@ -106,6 +107,12 @@ func (e *Eng) quantType(name string, c *ctx) (types.Type, string) {
 	}
 	if o, ok := e.lookupName(name, c).(*types.TypeName); ok {
 		return o.Type(), e.sortOfKind(e.kindOf(o.Type()), o.Type())
+	}
+	// *T, pkg.T, *pkg.T
+	if x, err := parser.ParseExpr(name); err == nil {
+		if t := e.resolveTypeExpr(x, c); t != nil {
+			return t, e.sortOfKind(e.kindOf(t), t)
+		}
 	}
 	panic("spec: unknown quantifier type " + name)
 }
